@@ -86,7 +86,7 @@ func (mapVacuum *MapVacuum[K, V]) vacuum() {
 	deleteUntil := 0
 	now := mapVacuum.clock.Now()
 	mapVacuum.mapMutex.Lock()
-	for _, entry := range mapVacuum.entries {
+	for _, entry := range mapVacuumEntries {
 		if entry.vacuumAt.Before(now) {
 			delete(mapVacuum.mapToVacuum, entry.keyToVacuum)
 			deleteUntil++
